@@ -500,7 +500,7 @@ Error String::_op_vformat(ModifyOp op, const char* fmt, va_list ap) noexcept {
     fmt_result = vsnprintf(data() + start_at, remaining_capacity, fmt, ap);
     output_size = size_t(fmt_result);
 
-    if (ASMJIT_LIKELY(output_size <= remaining_capacity)) {
+    if (ASMJIT_LIKELY(output_size < remaining_capacity)) {
       _set_size(start_at + output_size);
       return Error::kOk;
     }
